@@ -32,8 +32,11 @@ structure File (N : Type) where
       (name, entry offset from the start of text) — pclntab ≥ go1.18 stores offsets and `gosym` adds the
       `textStart` it was given (here: the `.text` section address, :41,:54) -/
   pcln : Option (Option (List (N × Addr)))
-  /-- `exe.Symbols()` (symbols_elf.go:61): `none` = no symbol table (stripped) or error; else (name, st_value) in file order -/
-  symtab : Option (List (N × Addr))
+  /-- `exe.Symbols()` (symbols_elf.go:61): `none` = no symbol table (stripped) or error; else (name, st_value,
+      hasAddress) in file order.  `hasAddress` = the entry names a place in the loaded image: it is defined in a section
+      (`st_shndx ≠ SHN_UNDEF`) and is not a file/section marker or a thread-local offset (`STT_FILE`, `STT_SECTION`,
+      `STT_TLS`); for the others `st_value` is 0, a TLS offset, … — not an address of anything. -/
+  symtab : Option (List (N × Addr × Bool))
 
 inductive Err | open | elf | noText | noPcln | pclnData | noFunc | noVar
   deriving DecidableEq, Repr
@@ -42,6 +45,11 @@ inductive Err | open | elf | noText | noPcln | pclnData | noFunc | noVar
 structure Table (N : Type) where
   funcs : List (N × Addr)
   syms : List (N × Addr)
+
+/-- the `gosym.Sym` list goom builds from the ELF symbols (symbols_elf.go:72): name and value of every entry that has
+    an address -/
+def addrSyms {N : Type} (ss : List (N × Addr × Bool)) : List (N × Addr) :=
+  ss.filterMap (fun e => if e.2.2 then some (e.1, e.2.1) else none)
 
 /-- symbols_elf.go:30 `osReadSymbols` -/
 def load {N : Type} (f : File N) : Except Err (Table N) :=
@@ -58,7 +66,7 @@ def load {N : Type} (f : File N) : Except Err (Table N) :=
       let funcs := es.map (fun e => (e.1, textStart + e.2))
       match f.symtab with
       | none => .ok ⟨funcs, []⟩          -- :62-66 "查找失败, 返回已有的symTable"
-      | some ss => .ok ⟨funcs, ss⟩       -- :72-80
+      | some ss => .ok ⟨funcs, addrSyms ss⟩       -- :72-80, entries without an address are left out
 
 /-- `for i := range t { if t[i].Name == name { return &t[i] } }; return nil`
     (gosym `LookupFunc`, symbols.go:81 `lookupSym`) -/
